@@ -642,6 +642,10 @@ static size_t copy_chars (UCHAR* from, UCHAR* to, size_t count, interactive_t* i
                   opt_trace (TT_COMM|2, "TELNET new line sequence received.\n");
                   add_message (ip->ob, "\r\n");
                 }
+              else
+                {
+                  *to++ = from[i]; /* only the lone CR is dropped, not the byte after it */
+                }
               ip->state &= ~TS_CR_SEEN; /* lone CR is dropped */
               break;
             }
